@@ -17,6 +17,7 @@ import (
 	"testing"
 
 	"github.com/algorand/go-algorand/config"
+	"github.com/algorand/go-algorand/data/transactions"
 )
 
 const vTopK = 10
@@ -367,13 +368,19 @@ func vRunF(out *vOut, st map[string]int, r *vRand) {
 	budgets := []int{40, 300, 700, 5000, 20000}
 	budget := budgets[r.Intn(len(budgets))]
 	pooling := r.Intn(4) != 0
+	isolate := mode == ModeApp && r.Intn(6) == 0 // an isolated ClearState run: remainingBudget ignores the pool
 	tr := &vFuzzTracer{maxRec: vEnvInt("VERIF_C31_REC", 100), minrem: 1 << 60}
 	env := vNewEnvOpt(mode, lsv, prog, args, tr, func(p *config.ConsensusParams) {
 		p.LogicSigMaxCost = uint64(budget)
 		p.MaxAppProgramCost = budget
 		p.EnableLogicSigCostPooling = pooling
 		p.EnableAppCostPooling = pooling
+		p.IsolateClearState = isolate
 	})
+	if isolate {
+		env.ep.TxnGroup[env.gi].Txn.OnCompletion = transactions.ClearStateOC
+		st["f_isolated_clearstate"]++
+	}
 	minv := env.ep.minAvmVersion
 	rem0 := env.remaining()
 	if rem0 < tr.minrem {
